@@ -74,10 +74,16 @@ func findMapLoops(fn *ssa.Function) []mapLoop {
 	return out
 }
 
-// innermostLoopHeader: the closest dominator of b that b can reach again.
+// innermostLoopHeader: the closest dominator of b that is the target of a back edge of a loop containing b.
 func innermostLoopHeader(b *ssa.BasicBlock) *ssa.BasicBlock {
 	for d := b; d != nil; d = d.Idom() {
-		if reachableFromSuccs(b)[d] && d.Dominates(b) && reachableFromSuccs(d)[d] {
+		isHeader := false
+		for _, pr := range d.Preds {
+			if d.Dominates(pr) {
+				isHeader = true
+			}
+		}
+		if isHeader && naturalLoop(d)[b] {
 			return d
 		}
 	}
